@@ -151,6 +151,14 @@ Theorem caches_well_formed : forall cap fmt cos, 0 < cap -> caches_ok cap fmt (f
 Proof. intros cap fmt cos Hc. exact (run_caches_ok cap fmt cos Hc G0 (caches_ok_G0 cap fmt)). Qed.
 Print Assumptions caches_well_formed.
 
+(* the model's account of the real engines (fn 3 of the correspondence): an opaque call -- Python engine, BibTeX
+   engine run as a whole, writers, YAML/BibTeXML readers -- returns and leaves every cell of G untouched; so what it
+   returns can only be a function of its own arguments (that the real calls behave so is TESTED: byte-identical
+   output and identical reports on repetition, in-process and against a fresh interpreter) *)
+Theorem opaque_call_touches_nothing : forall cap fmt g id, exec cap fmt g (OOpaque id) = (g, Ok VUnit).
+Proof. exact opaque_touches_nothing_lemma. Qed.
+Print Assumptions opaque_call_touches_nothing.
+
 (* leaving errors.capture() restores normal reporting *)
 Theorem capture_restores : forall e, e_captured (capture_exit e) = None.
 Proof. exact capture_exit_none. Qed.
